@@ -305,59 +305,110 @@ func c06ConstructionOnly(c *Ctx, R, name string) {
 
 // ---------------------------------------------------------------- R2 helpers
 
-// c06Wraps: every value v may denote is the sentinel, or an error constructed
-// from it (fmt.Errorf with the sentinel among its operands).
+// c06Wraps: every value v may denote is the sentinel, or an error that wraps
+// it so that errors.Is finds it: fmt.Errorf with the sentinel under a %w verb,
+// or an in-module error constructor all of whose results are such errors
+// (the sentinel may be handed to the constructor as an argument).
 func c06Wraps(fn *ssa.Function, v ssa.Value, sentinel string) bool {
-	set := map[ssa.Value]bool{}
-	AllInstrs(fn, func(in ssa.Instruction) {
-		if u, ok := in.(*ssa.UnOp); ok && sentinelOf(u) == sentinel {
-			set[u] = true
-		}
-	})
-	if len(set) == 0 {
-		return false
-	}
+	return c06WrapsV(v, func(x ssa.Value) bool { return sentinelOf(strip(x)) == sentinel }, 0)
+}
+
+func c06WrapsV(v ssa.Value, isSentinel func(ssa.Value) bool, depth int) bool {
 	rs := Roots(v)
-	if len(rs) == 0 {
+	if len(rs) == 0 || depth > 3 {
 		return false
 	}
 	for _, r := range rs {
-		if derivesFromAny(r, set, 0) {
+		r = strip(r)
+		if isSentinel(r) {
 			continue
 		}
-		if c06HelperWraps(r, sentinel, 0) {
+		call, ok := r.(*ssa.Call)
+		if !ok {
+			return false
+		}
+		if CalleeName(call) == "fmt.Errorf" {
+			if !c06ErrorfWraps(call, isSentinel, depth) {
+				return false
+			}
 			continue
 		}
-		return false
+		h := StaticCallee(call)
+		if h == nil || !inModule(h) || len(h.Blocks) == 0 {
+			return false
+		}
+		idx := ErrResultIndex(h.Signature)
+		if idx < 0 {
+			return false
+		}
+		inner := func(x ssa.Value) bool {
+			x = strip(x)
+			if p, isP := x.(*ssa.Parameter); isP {
+				for i, q := range h.Params {
+					if q == p && i < len(call.Call.Args) {
+						return c06WrapsV(call.Call.Args[i], isSentinel, depth+1)
+					}
+				}
+				return false
+			}
+			if u, isU := x.(*ssa.UnOp); isU {
+				if _, isG := u.X.(*ssa.Global); isG {
+					return isSentinel(x)
+				}
+			}
+			return false
+		}
+		atoms := RetAtoms(h, idx)
+		if len(atoms) == 0 {
+			return false
+		}
+		for _, a := range atoms {
+			if !c06WrapsV(a.Val, inner, depth+1) {
+				return false
+			}
+		}
 	}
 	return true
 }
 
-// c06HelperWraps: v is the result of an in-module error constructor all of
-// whose results wrap the sentinel (e.g. `return alreadyExists(key)`).
-func c06HelperWraps(v ssa.Value, sentinel string, depth int) bool {
-	call, ok := strip(v).(*ssa.Call)
-	if !ok || depth > 2 {
+// c06ErrorfWraps: fmt.Errorf(format, args...) with a constant format in which
+// an argument that is (or wraps) the sentinel sits under a %w verb.
+func c06ErrorfWraps(call *ssa.Call, isSentinel func(ssa.Value) bool, depth int) bool {
+	format, ok := constString(call.Call.Args[0])
+	if !ok {
 		return false
 	}
-	g := StaticCallee(call)
-	if g == nil || !inModule(g) || len(g.Blocks) == 0 {
-		return false
-	}
-	idx := ErrResultIndex(g.Signature)
-	if idx < 0 {
-		return false
-	}
-	atoms := RetAtoms(g, idx)
-	if len(atoms) == 0 {
-		return false
-	}
-	for _, a := range atoms {
-		if !c06Wraps(g, a.Val, sentinel) {
-			return false
+	var verbs []byte
+	for i := 0; i < len(format); i++ {
+		if format[i] != '%' {
+			continue
+		}
+		i++
+		for i < len(format) && strings.IndexByte("+-# 0123456789.*[]", format[i]) >= 0 {
+			i++
+		}
+		if i < len(format) && format[i] != '%' {
+			verbs = append(verbs, format[i])
 		}
 	}
-	return true
+	elems := c05VariadicElems(variadicArg(call))
+	for i, e := range elems {
+		if i >= len(verbs) || verbs[i] != 'w' {
+			continue
+		}
+		if isSentinel(strip(e)) || c06WrapsV(e, isSentinel, depth+1) {
+			return true
+		}
+	}
+	return false
+}
+
+// c06HelperWraps is kept for callers that only need the constructor case.
+func c06HelperWraps(v ssa.Value, sentinel string, depth int) bool {
+	if _, ok := strip(v).(*ssa.Call); !ok {
+		return false
+	}
+	return c06WrapsV(v, func(x ssa.Value) bool { return sentinelOf(strip(x)) == sentinel }, depth)
 }
 
 type c06Ret struct {
@@ -1159,6 +1210,7 @@ var c06Mutants = []Mutant{
 	{Name: "file-push-releases-name-lock-while-writing", File: "content/file/file.go", Old: "\tif needUnpack := expected.Annotations[AnnotationUnpack]; needUnpack == \"true\" && !s.SkipUnpack {\n\t\terr = s.pushDir(name, target, expected, content)\n\t} else {\n\t\terr = s.pushFile(target, expected, content)\n\t}\n", New: "\tstatus.Unlock()\n\tif needUnpack := expected.Annotations[AnnotationUnpack]; needUnpack == \"true\" && !s.SkipUnpack {\n\t\terr = s.pushDir(name, target, expected, content)\n\t} else {\n\t\terr = s.pushFile(target, expected, content)\n\t}\n\tstatus.Lock()\n", Expect: "C06.R2.refuse-before-mutate|(*~/content/file.Store).push|effects-under-name-lock"},
 	// R2
 	{Name: "memory-existing-reported-as-pushed", File: "internal/cas/memory.go", Old: "\tif _, exists := m.content.LoadOrStore(key, value); exists {\n\t\treturn fmt.Errorf(\"%s: %s: %w\", key.Digest, key.MediaType, errdef.ErrAlreadyExists)\n\t}\n\treturn nil", New: "\tm.content.LoadOrStore(key, value)\n\treturn nil", Expect: "C06.R2.refuse-before-mutate|(*~/internal/cas.Memory).Push|"},
+	{Name: "memory-loaded-error-not-wrapped", File: "internal/cas/memory.go", Old: "\tif _, exists := m.content.LoadOrStore(key, value); exists {\n\t\treturn fmt.Errorf(\"%s: %s: %w\", key.Digest, key.MediaType, errdef.ErrAlreadyExists)", New: "\tif _, exists := m.content.LoadOrStore(key, value); exists {\n\t\treturn fmt.Errorf(\"%s: %s: %v\", key.Digest, key.MediaType, errdef.ErrAlreadyExists)", Expect: "C06.R2.refuse-before-mutate|(*~/internal/cas.Memory).Push|loaded-branch-refuses"},
 	{Name: "memory-fast-check-returns-nil", File: "internal/cas/memory.go", Old: "\tif _, exists := m.content.Load(key); exists {\n\t\treturn fmt.Errorf(\"%s: %s: %w\", key.Digest, key.MediaType, errdef.ErrAlreadyExists)\n\t}\n\n\t// read and try", New: "\tif _, exists := m.content.Load(key); exists {\n\t\treturn nil\n\t}\n\n\t// read and try", Expect: "C06.R2.refuse-before-mutate|(*~/internal/cas.Memory).Push|fast-check-refuses"},
 	{Name: "oci-storage-no-existence-check", File: "content/oci/storage.go", Old: "\tif _, err := os.Stat(target); err == nil {\n\t\treturn fmt.Errorf(\"%s: %s: %w\", expected.Digest, expected.MediaType, errdef.ErrAlreadyExists)\n\t} else if !os.IsNotExist(err) {\n\t\treturn err\n\t}\n", New: "", Expect: "C06.R2.refuse-before-mutate|(*~/content/oci.Storage).Push|existing-blob-refused"},
 	{Name: "oci-storage-ingest-before-check", File: "content/oci/storage.go", Old: "\tif _, err := os.Stat(target); err == nil {\n\t\treturn fmt.Errorf(\"%s: %s: %w\", expected.Digest, expected.MediaType, errdef.ErrAlreadyExists)\n\t} else if !os.IsNotExist(err) {\n\t\treturn err\n\t}\n\n\tif err := ensureDir(filepath.Dir(target)); err != nil {\n\t\treturn err\n\t}\n\n\t// write the content to a temporary ingest file.\n\tingest, err := s.ingest(expected, content)\n\tif err != nil {\n\t\treturn err\n\t}\n", New: "\tif err := ensureDir(filepath.Dir(target)); err != nil {\n\t\treturn err\n\t}\n\n\t// write the content to a temporary ingest file.\n\tingest, err := s.ingest(expected, content)\n\tif err != nil {\n\t\treturn err\n\t}\n\tif _, err := os.Stat(target); err == nil {\n\t\treturn fmt.Errorf(\"%s: %s: %w\", expected.Digest, expected.MediaType, errdef.ErrAlreadyExists)\n\t} else if !os.IsNotExist(err) {\n\t\treturn err\n\t}\n", Expect: "C06.R2.refuse-before-mutate|(*~/content/oci.Storage).Push|effects-only-after-stat-miss"},
